@@ -23,7 +23,7 @@ EXTS = ['html', 'pickle', 'tex', 'F12']
 def make_config(rng, profile, tier):
     cfg = specs.gen_model_config(rng, k_max=4, fancy_names=False, allow_cliff=False)
     cfg['names'] = rng.sample(['asc', 'b_time', 'b_cost', 'beta', 'BETA', 'b', 'b1', 'b10', 'mu', 'lambda',
-                               'a_b', 'theta1'], cfg['K'])
+                               'a_b', 'theta1', 'beta_time_car', 'beta_time_train', 'beta_time_carpool'], cfg['K'])
     if rng.random() < 0.02:
         # a model with more parameters than a report is likely to truncate (printed tables, "first n" limits)
         k = rng.randrange(61, 76)
